@@ -181,6 +181,9 @@ type PathResult struct {
 	Steps      int64
 	Uncertain  bool
 	ForkSites  []string
+	Writes       []string // MapOrders mode: ordered database writes
+	DataTrace    string   // MapOrders mode: trace without iteration-order choices
+	OrderChoices []string
 	PCSize     int
 }
 
@@ -401,6 +404,25 @@ func (e *Engine) runPath(fn *ssa.Function, prefix []traceEntry, sess *Session, o
 	pr.Steps = i.steps
 	pr.Uncertain = ctx.uncertain
 	pr.ForkSites = ctx.forkSites
+	if opts.MapOrders {
+		// observable trace of the path: the ordered database writes
+		for _, w := range *i.writeLog() {
+			pr.Writes = append(pr.Writes, fmt.Sprintf("%s %s %x = %s", w.Store, w.Op, w.Key, dumpValue(w.Val)))
+		}
+		// the path's identity with the iteration-order choices removed
+		isOrder := map[int]bool{}
+		for _, k := range ctx.orderIdx {
+			isOrder[k] = true
+		}
+		var rest []traceEntry
+		for k, e := range ctx.trace {
+			if !isOrder[k] {
+				rest = append(rest, e)
+			}
+		}
+		pr.DataTrace = traceString(rest)
+		pr.OrderChoices = ctx.orderSites
+	}
 	pr.PCSize = ctx.pcSize
 	if pr.Outcome == "panicked" || pr.Outcome == "returned" {
 		// a witness input for this path (replay / differential validation)
